@@ -5,6 +5,7 @@ package verifbench
 // response, so everything before the fault point is a valid prefix.
 
 import (
+	"bytes"
 	"encoding/binary"
 	"io"
 	"regexp"
@@ -24,6 +25,8 @@ const (
 	FaultCLMinus   = "cl_minus"   // declared Content-Length under-stated by Val
 	FaultNoStatus  = "no_status"  // response: terminal status removed (no grpc-status / end frame)
 	FaultExtraData = "extra_data" // response: data after the end
+	FaultReplace   = "replace"    // whole body replaced by Data (native fuzz targets)
+	FaultSplice    = "splice"     // Data written over the body at offset At (the body grows if Data reaches past its end)
 )
 
 // frameOffsets returns the start offset of every complete frame in body.
@@ -60,6 +63,28 @@ func mutateBody(f *Fault, body []byte, enveloped bool) ([]byte, bool) {
 		}
 		out := append([]byte(nil), body...)
 		out[f.At%len(out)] ^= 1 << (uint(f.Val) % 8)
+		return out, true
+	case FaultReplace:
+		if bytes.Equal(body, f.Data) {
+			return body, false
+		}
+		return append([]byte{}, f.Data...), true
+	case FaultSplice:
+		if len(f.Data) == 0 {
+			return body, false
+		}
+		at := 0
+		if len(body) > 0 {
+			at = f.At % (len(body) + 1)
+		}
+		out := append([]byte{}, body[:at]...)
+		out = append(out, f.Data...)
+		if at+len(f.Data) < len(body) {
+			out = append(out, body[at+len(f.Data):]...)
+		}
+		if bytes.Equal(out, body) {
+			return body, false
+		}
 		return out, true
 	}
 	if !enveloped {
@@ -152,6 +177,10 @@ func applyRequestFault(sc *Scenario, enc *encodedRequest) {
 	}
 	if f.Kind == FaultCut {
 		enc.BodyErr = io.ErrUnexpectedEOF
+	} else if enc.DeclaredCL >= 0 && len(body) != len(enc.Body) {
+		// a body that ends cleanly has the length its sender declared (net/http turns any other
+		// combination into a read error, which is what FaultCut / cl_plus / cl_minus model)
+		enc.DeclaredCL = int64(len(body))
 	}
 	enc.Body = body
 }
